@@ -279,7 +279,7 @@ func Drive(in string, index int, w *ev.Writer, seed int64, tracePath string) err
 		// the server has acknowledged the handshake; the client installs the socket a moment later
 		recovered = rec.waitConnUps(sc.NConns, sv, 2*time.Second)
 	}
-	time.Sleep(30 * time.Millisecond)
+	time.Sleep(30*time.Millisecond + time.Duration(slackMs()/4)*time.Millisecond) // the client installs an acknowledged socket a moment after the server sees it open
 	for r := 0; r < sc.Followup && recovered && hang == ""; r++ {
 		var fw sync.WaitGroup
 		for j := 0; j < 2*sc.NConns; j++ {
